@@ -224,10 +224,15 @@ def session(ctx, ppg, inst):
     with warnings.catch_warnings(record=True) as wl:
         warnings.simplefilter("always")
         sys.stdout = buf
+        amb0 = core.ambient_snapshot(full=False)
         try:
             yield out
         finally:
             sys.stdout = old
+            # "a warning is issued" for every clamped request of any call sequence: the driver must not reconfigure the
+            # process-wide warnings machinery (a 'once' / 'ignore' filter pushed by one call silences the warnings of later ones)
+            amb = core.ambient_diff(amb0, core.ambient_snapshot(full=False))
+            ctx.check("ambient.unchanged", amb is None, f"a driver call changed process-global state and did not restore it: {amb}")
     out["warnings"] = [str(w.message) for w in wl]
     if inst is not None:
         out["events"] = inst.log[start:]
